@@ -148,18 +148,21 @@ def run_gap_patterns(chk, tier, mods):
         elab, en = es
         ii, jj = np.nonzero(m)
         v = vals[m]
-        sl = np.full(len(v), c13_replay.POISON, np.int32)
-        mv = np.full(len(v), -123.0, np.float32)
-        imv = np.full(len(v), c13_replay.POISON, np.int32)
-        n2 = cImageD11.sparse_localmaxlabel(v, ii.astype(np.uint16), jj.astype(np.uint16), mv, imv, sl)
         n += 1
         chk.case(("gap", vals.tobytes(), m.tobytes()))
         chk.traces += 1
-        if n2 != en or sl.tolist() != elab:
-            chk.violation("sparse_localmaxlabel on a pattern with gaps: labels %s (n=%d), steepest-ascent definition %s (n=%d)" % (
-                sl.tolist(), n2, elab, en), {"gap_pattern": {"img": vals.tolist(), "mask": m.astype(int).tolist()}})
-            if len(chk.violations) > 10:
+        for fill in (-123.0, 3.0e38):           # previous content of the work buffers
+            sl = np.full(len(v), c13_replay.POISON, np.int32)
+            mv = np.full(len(v), fill, np.float32)
+            imv = np.full(len(v), c13_replay.POISON, np.int32)
+            n2 = cImageD11.sparse_localmaxlabel(v, ii.astype(np.uint16), jj.astype(np.uint16), mv, imv, sl)
+            if n2 != en or sl.tolist() != elab:
+                chk.violation("sparse_localmaxlabel on a pattern with gaps (work buffers pre-filled with %g): labels %s (n=%d), "
+                              "steepest-ascent definition %s (n=%d)" % (fill, sl.tolist(), n2, elab, en),
+                              {"gap_pattern": {"img": vals.tolist(), "mask": m.astype(int).tolist()}})
                 break
+        if len(chk.violations) > 10:
+            break
     chk.notes["sparse_gap_patterns"] = n
 
 
@@ -363,13 +366,12 @@ def run(tier, replay=None):
                 bad += 1
         if bad:
             raise common.MachineryError("%d unparsable TLC lines" % bad)
-    ntf = 0
+    ntf = sum(1 for case in cases if case["tiefree"])      # (counted on the emitted cases, not on those replayed)
     for idx, case in enumerate(cases):
         try:
             probs = c13_replay.run_case(case, mods, idx)
         except Exception as e:
             probs = ["exception %r" % (e,)]
-        ntf += case["tiefree"]
         chk.case((case["ns"], case["nf"], tuple(case["img"])), nontrivial=case["npk"] > 0)
         chk.traces += 1
         if idx in (3, 4000):
